@@ -74,7 +74,9 @@ def _run(tier, fork):
     for n, r in forked.items():
         if (r["fresh"], r["graph"]) != (singles[n]["fresh"], singles[n]["graph"]):
             if fork:
-                raise common.MachineryError("two pristine forks disagree on %s: %s vs %s" % (n, r, singles[n]))
+                rep.violation({"kind": "outcome-differs-between-identical-pristine-runs", "call": n}, {"history": [n], "position": 0},
+                              "call %s gives %s in one pristine interpreter and %s in another" % (n, r, singles[n]))
+                continue
             raise _NeedForks("resetting einx's known caches is not equivalent to a fresh interpreter for call %s" % n)
     key = classes_from_hits(names, hits)
     art = {n: ("none" if singles[n]["graph"].startswith("exc:") or singles[n]["graph"] == "none" else singles[n]["graph"]) for n in names}
@@ -127,7 +129,11 @@ def _run(tier, fork):
         b = [o["outcome"] for o in results[idx[json.dumps(h)]]["outs"]]
         if a != b:
             if fork:
-                raise common.MachineryError("history %s: two pristine forks disagree: %s vs %s" % (h, a, b))
+                # identical pristine interpreters executing the same history disagree: the outcome depends on something that
+                # is neither the call nor the history (object addresses, allocation order) - a violation, not a harness fault
+                rep.violation({"kind": "outcome-differs-between-identical-pristine-runs", "call": h[[i for i in range(len(a)) if a[i] != b[i]][0]] if len(a) == len(b) else "-"},
+                              {"history": h, "position": 0}, "history %s gives %s in one pristine interpreter and %s in another" % (h, a, b))
+                continue
             raise _NeedForks("history %s gives %s in a pristine fork but %s after the in-process reset" % (h, a, b))
     rep.extra["histories_cross_checked_in_forks"] = len(sample)
     rep.extra["mode"] = "one pristine fork per measurement / history" if fork else "in-process reset of einx's caches, cross-checked against pristine forks"
